@@ -3,15 +3,15 @@
 WT=/tmp/wt/confirm
 git -C /repo worktree remove --force $WT 2>/dev/null
 git -C /repo worktree add -q --detach $WT HEAD || exit 1
-for d in /tmp/seed_out/C*/[AB]; do
+for d in ${SEEDSRC:-/tmp/seed_out}/C*/[ABC]; do
   id=$(basename $(dirname $d)); v=$(basename $d); name="$id-$v"
   [ -f $d/patch.diff ] && [ -f $d/demo.py ] || { echo "$name: incomplete"; continue; }
   [ -f /verif/seeded/$name/meta.json ] && continue
   cd $WT && git checkout -q -- . && git clean -fdq
   if ! git apply --check $d/patch.diff 2>/dev/null; then echo "$name: patch does not apply"; continue; fi
-  PYTHONPATH=$WT timeout 300 /venv/bin/python $d/demo.py >/tmp/seed_out/$name.clean.log 2>&1; clean_rc=$?
+  PYTHONPATH=$WT timeout 300 /venv/bin/python $d/demo.py >/tmp/$name.clean.log 2>&1; clean_rc=$?
   git apply $d/patch.diff
-  PYTHONPATH=$WT timeout 300 /venv/bin/python $d/demo.py >/tmp/seed_out/$name.mut.log 2>&1; mut_rc=$?
+  PYTHONPATH=$WT timeout 300 /venv/bin/python $d/demo.py >/tmp/$name.mut.log 2>&1; mut_rc=$?
   OUT=$(mktemp /tmp/junit.XXXXXX.xml)
   /venv/bin/python -m pytest -q -p no:cacheprovider --timeout=900 --continue-on-collection-errors --junitxml=$OUT >/dev/null 2>&1
   tests=$(/venv/bin/python - $OUT <<'PY'
